@@ -25,24 +25,27 @@ EndianOf(ext) ==
     LET v == LookupField(ext, "endianess", [s |-> "little"]) IN
     IF "s" \in DOMAIN v THEN v.s ELSE IF "id" \in DOMAIN v THEN v.id ELSE "little"
 
-Item(t, own, prefix, unit) == [t |-> t, own |-> own, prefix |-> prefix, unit |-> unit]
+(* uprefix: the same hierarchical prefix with "::" written "_" (DBC / C identifiers) *)
+Item(t, own, prefix, uprefix, unit) ==
+    [t |-> t, own |-> own, prefix |-> prefix, uprefix |-> uprefix, unit |-> unit]
 
 Leaf(sch, impl, it, start) ==
     LET ext == GetSignal(impl, it.own) IN
-    [name |-> it.prefix \o it.own, own |-> it.own, start |-> start, len |-> BitsOf(sch, it.t),
+    [name |-> it.prefix \o it.own, uname |-> it.uprefix \o it.own, own |-> it.own, start |-> start, len |-> BitsOf(sch, it.t),
      endian |-> EndianOf(ext), ext |-> ext, unit |-> it.unit, type |-> it.t]
 
 (* children of a composite item, in layout order *)
 Children(sch, it, unroll, isRoot) ==
     CASE it.t.k = "struct" ->
             LET fs == SortedById(GetStruct(sch, it.t.name).fields)
-                pre == IF isRoot THEN "" ELSE it.prefix \o it.own \o "::" IN
+                pre == IF isRoot THEN "" ELSE it.prefix \o it.own \o "::"
+                upre == IF isRoot THEN "" ELSE it.uprefix \o it.own \o "_" IN
             [i \in 1..Len(fs) |->
-                Item(fs[i].type, fs[i].name, pre,
+                Item(fs[i].type, fs[i].name, pre, upre,
                      IF "unit" \in DOMAIN fs[i] THEN fs[i].unit ELSE <<>>)]
       [] it.t.k = "arr" /\ unroll ->
             [i \in 1..it.t.n |->
-                Item(it.t.t, it.own \o "_" \o ToString(i - 1), it.prefix, it.unit)]
+                Item(it.t.t, it.own \o "_" \o ToString(i - 1), it.prefix, it.uprefix, it.unit)]
 
 IsComposite(it, unroll) == it.t.k = "struct" \/ (it.t.k = "arr" /\ unroll)
 
@@ -56,7 +59,7 @@ Walk(sch, impl, unroll, work, acc) ==
          ELSE LET start == IF acc = <<>> THEN 0 ELSE acc[Len(acc)].start + acc[Len(acc)].len IN
               Walk(sch, impl, unroll, Tail(work), Append(acc, Leaf(sch, impl, it, start)))
 
-RootItem(impl) == Item(StructT(impl.type), "", "", <<>>)
+RootItem(impl) == Item(StructT(impl.type), "", "", "", <<>>)
 
 LayoutOf(sch, impl, unroll) ==
     Walk(sch, impl, unroll, Children(sch, RootItem(impl), unroll, TRUE), <<>>)
